@@ -714,7 +714,7 @@ class Gen(object):
         c = r.random()
         name = r.choice(["ValueError", "KeyboardInterrupt", "SystemExit", "TypeError", "KeyError", "GeneratorExit", "StopIteration", "NoSuchError",
                          "OSError", "Exception", "BaseException", "object", "eval", "UnicodeDecodeError"])
-        mod = "builtins" if r.random() < 0.7 else r.choice(["os", "subprocess", "nosuchmod", "harness.C07", "pickle", "ctypes", "antigravity", "builtins.x"])
+        mod = "builtins" if r.random() < 0.7 else r.choice(["os", "subprocess", "nosuchmod", "harness.C07", "pickle", "colorsys", "chunk", "builtins.x"])
         if c < 0.6:
             return T(((mod, name), ("arg", 1), (("k", "v"), ("_remote_version", r.choice(["5.0.1", "4.0", "x"]))), "tb text"))
         if c < 0.7:
@@ -851,7 +851,8 @@ class Gen(object):
             p, a = self.args_pkg(); ans += a
             items = [tgt, nm1, nm2, r.choice([V(T(0)), V(T(None)), self.ref()]), r.choice([V(T(None)), V(T(3)), self.ref()]), p]
         elif hname == "CTXEXIT":
-            items = [tgt, r.choice([V(T(None)), V(T(0)), V(T(1)), V(T("x")), V(T(())), V(T((1,))), self.ref(), V(T(0.0)), V(T(b""))])]
+            items = [tgt, r.choice([V(T(None)), V(T(0)), V(T(1)), V(T("x")), V(T(())), V(T((1,))), self.ref(), V(T(0.0)), V(T(b"")),
+                                    V(self.exc_payload()), V(self.exc_payload()), V(self.exc_payload()), TT([V(T(1)), self.ref()])])]
         elif hname == "INSTANCECHECK":
             other = r.choice([V(T((r.choice(BUILTIN_NAMES), 1, 2)))] * 3 + [V(T(("foo.Bar", 1, 2))), V(["id", self.ref_idx(), "exact"]), V(T(5)), V(T(())),
                              V(T(("x",))), V(T("ab")), V(T(b"ab")), self.ref(), V(T((5, 6))), V(T(None))])
@@ -943,6 +944,17 @@ def harvest(world, clock):
     return p2, ids
 
 
+def find_refs_deep(v):
+    """every (LABEL_REMOTE_REF, id pack) anywhere inside an outgoing message body"""
+    out = []
+    if isinstance(v, tuple):
+        if len(v) == 2 and type(v[0]) is int and v[0] == R.LABEL_REMOTE_REF and isinstance(v[1], tuple) and len(v[1]) == 3 and isinstance(v[1][0], str):
+            out.append(v[1])
+        for x in v:
+            out += find_refs_deep(x)
+    return out
+
+
 def find_refs(pkg):
     out = []
     if isinstance(pkg, tuple) and len(pkg) == 2:
@@ -1021,6 +1033,7 @@ class Session(object):
         self.peer2, self.world.ids2 = harvest(self.world, self.clock)
         del LOG[:]
         self.peer = Peer(self.world.objs[0], self.clock)
+        self.lent = set()          # id packs this connection was observed to send to the peer (the harness's own record)
         self.rev = {idp: c for idp, c in zip(self.world.ids, self.world.canon_ids())}
         self.obj_of_id = {idp: i for i, idp in enumerate(self.world.ids)}
 
@@ -1070,7 +1083,13 @@ class Session(object):
         log = list(LOG)
         del LOG[:]
         after = table_of(self.peer.conn)
+        lent_before = set(self.lent)
+        for m in out:
+            if isinstance(m, tuple) and len(m) == 3:
+                for idp in find_refs_deep(m[2]):
+                    self.lent.add(idp)
         return {"real": real, "out": out, "log": log, "before": before, "after": after, "ended": self.peer.ended,
+                "lent_before": lent_before, "lent_after": set(self.lent),
                 "closed": self.peer.conn.closed, "dead": dead, "asks": list(self.peer.asks), "audit": list(_audit["events"]),
                 "pickle": list(pw.calls), "newmods": sorted(set(sys.modules) - mods_before)}
 
@@ -1116,7 +1135,7 @@ def oracle(ctx, sess, case, k, msg, obs, noise):
     held = set()
     for key, (o, cnt) in obs["before"].items():
         i = DESC.get(id(o), {}).get("idx")
-        if i is not None:
+        if i is not None and key in obs["lent_before"]:      # in the table AND observed to have been sent on THIS connection
             held.add(i)
     if is_request and hname == "GETROOT":
         held.add(0)
@@ -1142,6 +1161,9 @@ def oracle(ctx, sess, case, k, msg, obs, noise):
             if i not in closure and not any(w.descs[j]["type"] == i for j in closure):
                 bad("table-grew-unauthorised:%s" % hname, "an object the peer had no way to reach was added to the table of lent objects",
                     observed=(i, repr(key)[:80]), expected="only results of permitted operations are lent")
+        if i is not None and key not in obs["lent_after"]:
+            bad("table-holds-unlent-object", "the table of lent objects has an entry that was never sent to this peer on this connection",
+                observed=(i, repr(key)[:80]), expected="entries only for objects sent on this connection")
         if i is not None and w.ids[i] != key:
             bad("table-key-mismatch", "a table entry maps an id pack to a different object", observed=(i, repr(key)[:80]), expected=repr(w.ids[i])[:80])
     # (4) nothing pickled / unpickled / imported / executed
@@ -1176,7 +1198,7 @@ def oracle(ctx, sess, case, k, msg, obs, noise):
         for it in items:
             if isinstance(it, tuple) and len(it) == 2 and type(it[0]) is int and it[0] == R.LABEL_LOCAL_REF:
                 try:
-                    present = it[1] in obs["before"]
+                    present = it[1] in obs["before"] and it[1] in obs["lent_before"]
                 except TypeError:
                     present = False
                 if not present:
@@ -1416,7 +1438,16 @@ def gen_case(r, ident, quick):
     descs = gen_world(r)
     g = Gen(r, descs)
     n = r.choice([4, 8, 12, 16, 20, 30]) if not quick else r.choice([4, 8, 12, 16, 24])
-    return {"id": ident, "world": descs, "msgs": g.session(n)}
+    msgs = g.session(n)
+    if r.random() < 0.04:
+        # the peer does not wait for the server: it sends a request of its own while the server waits for the answer to its nested request
+        for m in msgs:
+            if m.get("answers") and "m" in m:
+                tgt = L(["id", r.randrange(len(descs)), "exact"])
+                m["interleave"] = ["tuple", [T(1), T(7000 + r.randrange(100)),
+                                             ["tuple", [T(R.H[r.choice(["GETATTR", "REPR", "CALL", "DEL"])]), TT([tgt, V(T(r.choice(DENIED + EXPOSED_NAMES)))])]]]]
+                break
+    return {"id": ident, "world": descs, "msgs": msgs}
 
 
 def special_cases(r):
@@ -1471,7 +1502,7 @@ def run(ctx):
     jobs = [] if model is not None else None
     cases = special_cases(r)
     import os
-    n = int(os.environ.get("C07_SESSIONS", "0")) or (400 if ctx.quick else 12000)
+    n = int(os.environ.get("C07_SESSIONS", "0")) or (400 if ctx.quick else 20000)
     for i in range(n):
         cases.append(gen_case(r, "s%d" % i, ctx.quick))
     for case in cases:
